@@ -79,6 +79,58 @@ func (e *env) residue(sid int64) []string {
 	return out
 }
 
+// closeVsNewTerm: the leader is fenced while it closes a session. Whatever part of the close reached the log
+// is what the next term starts from: the session record and the records the session owns must both be there
+// or both be gone ("removed atomically with the session itself").
+func closeVsNewTerm() func(s *vsched.Sched) {
+	return func(s *vsched.Sched) {
+		e := setup(s)
+		if e == nil {
+			return
+		}
+		sid := e.session(20000)
+		if st, err := e.put("k1", "eph", &sid); err != nil || st != proto.Status_OK {
+			s.Fail("harness-setup", fmt.Sprint(st, err))
+			return
+		}
+		s.Settle()
+		s.Explore(true)
+		var cerr error
+		vsched.Go(func() {
+			_, cerr = e.lc.CloseSession(&proto.CloseSessionRequest{Shard: 1, SessionId: sid})
+		})
+		var nerr error
+		vsched.Go(func() {
+			_, nerr = e.lc.NewTerm(&proto.NewTermRequest{Namespace: "ns", Shard: 1, Term: 2, Options: &proto.NewTermOptions{EnableNotifications: true}})
+		})
+		s.Settle()
+		s.Explore(false)
+		if nerr != nil {
+			s.Fail("harness-setup", "NewTerm(2): "+nerr.Error())
+			return
+		}
+		if _, err := e.lc.BecomeLeader(context.Background(), &proto.BecomeLeaderRequest{Namespace: "ns", Shard: 1, Term: 2, ReplicationFactor: 1, FollowerMaps: map[string]*proto.EntryId{}}); err != nil {
+			s.Fail("reelection-failed", err.Error())
+			return
+		}
+		s.Settle()
+		sessionRecord, owned := false, false
+		for _, l := range e.residue(sid) {
+			if strings.HasPrefix(strings.TrimLeft(l, "\""), fmt.Sprintf("__oxia/session/%016x\"", sid)) {
+				sessionRecord = true
+			}
+			if strings.Contains(l, fmt.Sprintf("sess=%d ", sid)) {
+				owned = true
+			}
+		}
+		if owned && !sessionRecord {
+			s.Fail("records-outlive-interrupted-close", fmt.Sprintf("CloseSession (result: %v) was interrupted by NewTerm(2); in term 2 the session record is gone but a record owned by session %d is still there, and nothing will ever remove it: %v", cerr, sid, e.residue(sid)))
+		}
+		s.Data = fmt.Sprintf("session=%v owned=%v close=%v", sessionRecord, owned, cerr)
+		_ = e.lc.Close()
+	}
+}
+
 // A: session close races with a plain put that takes the key over.
 func closeVsTakeover(expire bool) func(s *vsched.Sched) {
 	return func(s *vsched.Sched) {
@@ -444,6 +496,7 @@ func scenarios(tier string) []sched.Scenario {
 		{Name: "expiry-vs-plain-takeover", Cfg: race, MaxDev: d, Body: closeVsTakeover(true)},
 		{Name: "close-vs-own-ephemeral-put", Cfg: cfg, MaxDev: d, Body: closeVsOwnPut()},
 		{Name: "expiry-vs-heartbeat", Cfg: race, MaxDev: 2, Body: expiryVsHeartbeat()},
+		{Name: "close-vs-newterm", Cfg: cfg, MaxDev: d, Body: closeVsNewTerm()},
 		{Name: "reelection", Cfg: cfg, MaxDev: 1, Body: reelection()},
 		{Name: "reelection-two-sessions", Cfg: cfg, MaxDev: 1, Body: reelectionTwoSessions()},
 		{Name: "election-with-session-in-unapplied-tail", Cfg: cfg, MaxDev: 1, Body: electionWithSessionInUnappliedTail()},
